@@ -18,6 +18,9 @@ func init() { register("C04", checkC04) }
 var sm3IV = [8]uint32{0x7380166f, 0x4914b2b9, 0x172442d7, 0xda8a0600, 0xa96f30bc, 0x163138aa, 0xe38dee4d, 0xb0fb0e4e}
 
 func checkC04(c *Ctx) {
+	defer noGlobalWrites(c, "FX-C04-pure", [][2]string{{"sm3", "New"}, {"sm3", "Sm3Sum"}, {"sm3", "(*SM3).Write"}, {"sm3", "(*SM3).Sum"}, {"sm3", "(*SM3).Reset"}},
+		"hash objects share state through the package — e.g. a template state whose tail slice every New/Reset copies by reference, or a pooled pad buffer")
+
 	c.Decided = append(c.Decided,
 		"K-C04-iv: the 8 IV words written by Reset equal GM/T 0004",
 		"K-C04-compress: every compression routine reachable from Write/Sum, put in canonical form (helpers inlined, +/^ flattened, rotations recognised, boolean functions by truth table), equals the GM/T 0004 formulas: message expansion W[0..67], W'[0..63], 64 rounds with T_j<<<j, FF_j/GG_j per half, P0/P1, chaining V^ABCDEFGH, 64-byte block loop",
